@@ -26,6 +26,11 @@ func opts() zzuri.Opt {
 // request builds an authorization request for client c1 whose only registered redirect URI is the
 // structured URI x (so the redirect matcher accepts it whenever it is valid).
 func request(w *world.World, x zzuri.URI, responseType string) (fosite.AuthorizeRequester, error) {
+	return requestRaw(w, x.Raw, responseType)
+}
+
+func requestRaw(w *world.World, raw string, responseType string) (fosite.AuthorizeRequester, error) {
+	x := struct{ Raw string }{raw}
 	w.Store.Clients["c1"].(*fosite.DefaultClient).RedirectURIs = []string{x.Raw}
 	form := url.Values{
 		"client_id":     {"c1"},
@@ -99,6 +104,58 @@ func ZZ_C11_par_gate() {
 	zz.Assert(zz.Not(insecure(x)), "request pushed with plain http only on loopback/localhost/*.localhost")
 	zz.Cover("pushed-local-http", x.Lscheme == "http")
 	zz.Cover("pushed-other-scheme", x.Lscheme != "http")
+}
+
+// ZZ_C11_gate_reconfigured: "unless configured otherwise" means the configuration in force for THIS request.
+// One provider serves a first request under a permissive RedirectSecureChecker (or under the default), the
+// checker is then removed (or installed), and a second request with an arbitrary redirect URI must be
+// judged by the configuration of its own time - through the code handler and through the PAR handler.
+func ZZ_C11_gate_reconfigured() {
+	firstPermissive := zz.Choice("first-permissive", 2) == 1
+	allow := func(context.Context, *url.URL) bool { return true }
+	w := world.New(world.Options{Tweak: func(cfg *fosite.Config) {
+		if firstPermissive {
+			cfg.RedirectSecureChecker = allow
+		}
+	}})
+	viaPAR := zz.Choice("via", 2) == 1
+	h := &par.PushedAuthorizeHandler{Storage: w.Store, Config: w.Cfg}
+	serve := func(raw string) (bool, bool) {
+		ar, err := requestRaw(w, raw, "code")
+		if err != nil {
+			return false, false
+		}
+		if viaPAR {
+			ar.SetSession(world.NewSession("peter"))
+			return h.HandlePushedAuthorizeEndpointRequest(w.Ctx, ar, &fosite.PushedAuthorizeResponse{}) == nil, true
+		}
+		ar.GrantScope("photos")
+		_, err = w.Provider.NewAuthorizeResponse(w.Ctx, ar, world.NewSession("peter"))
+		return err == nil, true
+	}
+	// first request: a plain-http, non-local target (accepted iff permissive) or an https one
+	first := []string{"http://app.corp.example/cb", "https://app.corp.example/cb"}[zz.Choice("first-uri", 2)]
+	_, ok := serve(first)
+	zz.Assume(ok)
+	// the configuration changes
+	if firstPermissive {
+		w.Cfg.RedirectSecureChecker = nil
+	} else {
+		w.Cfg.RedirectSecureChecker = allow
+	}
+	x := zzuri.New("u", opts())
+	accepted, ok := serve(x.Raw)
+	zz.Assume(ok)
+	if firstPermissive {
+		if accepted {
+			zz.Assert(zz.Not(insecure(x)), "reconfigured to the default: plain http only on loopback/localhost/*.localhost")
+		}
+		zz.Cover("reconfigured:strict-now", accepted)
+		zz.Cover("reconfigured:strict-now-refused", !accepted)
+	} else {
+		zz.Assert(accepted, "reconfigured to a permissive checker: the configured checker decides")
+		zz.Cover("reconfigured:permissive-now", insecure(x))
+	}
 }
 
 // ZZ_C11_two_requests: two authorization requests of one client on ONE provider, both without redirect_uri
